@@ -24,12 +24,13 @@ const (
 	gWaitLock               // parked at its gate, waiting for a lock to be released
 	gWaitQ                  // parked at its gate, waiting on a WaitQ
 	gWaitIdle               // parked at its gate, waiting for a quiescent instant
+	gWaitStep               // parked at its gate, waiting for a predicate checked between any two steps
 	gBlocked                // blocked inside the runtime (channel, sleep, WaitGroup, ...)
 	gDone
 )
 
 func (s gstate) String() string {
-	return [...]string{"running", "runnable", "wait-lock", "wait-q", "wait-idle", "blocked", "done"}[s]
+	return [...]string{"running", "runnable", "wait-lock", "wait-q", "wait-idle", "wait-step", "blocked", "done"}[s]
 }
 
 // G is the scheduler's record of one goroutine.
@@ -70,14 +71,15 @@ type Crash struct {
 }
 
 type Config struct {
-	Stream   *Stream
-	Policy   Policy
-	Horizon  time.Duration // simulated-time limit
-	MaxSteps uint64
-	MaxStill uint64 // consecutive steps without the clock moving (livelock guard)
-	LogLimit int    // number of log lines kept (0: logging off)
-	MapShuffle bool // map iteration order drawn from the stream (else sorted)
-	Main     func() // the scenario; the run ends when it returns
+	Stream     *Stream
+	Policy     Policy
+	Horizon    time.Duration // simulated-time limit
+	MaxSteps   uint64
+	MaxStill   uint64 // consecutive steps without the clock moving (livelock guard)
+	LogLimit   int    // number of log lines kept (0: logging off)
+	MapShuffle bool   // map iteration order drawn from the stream (else sorted)
+	Knobs      bool   // see Knob
+	Main       func() // the scenario; the run ends when it returns
 }
 
 type Stats struct {
@@ -104,9 +106,9 @@ type Sched struct {
 	current atomic.Pointer[G]
 	wake    chan struct{}
 
-	St  *Stream
-	Pol Policy
-	cfg Config
+	St         *Stream
+	Pol        Policy
+	cfg        Config
 	MapShuffle bool
 
 	step      uint64
@@ -118,9 +120,15 @@ type Sched struct {
 	mainDone  bool
 	aborted   atomic.Bool
 	abortWhy  string
-	wall0     int64  // real time at the start, see the wall-clock cap
-	yields    uint64 // yield points passed (bounds runs that compute without ever blocking)
-	done      bool
+	stepHooks []func() // see OnStep
+	knobs     map[string]int
+	knobsOn   bool
+	// KnobsAllowed: the scenario tolerates shortened queues (see Knob)
+	KnobsAllowed bool
+	nwatch       int    // goroutines in AwaitStep
+	wall0        int64  // real time at the start, see the wall-clock cap
+	yields       uint64 // yield points passed (bounds runs that compute without ever blocking)
+	done         bool
 
 	Crashes []Crash
 	Stats   Stats
@@ -130,9 +138,9 @@ type Sched struct {
 	logDrop int
 	hash    uint64
 
-	pctPoints []uint64
-	pctNext   int
-	zeroRand  uint64
+	pctPoints   []uint64
+	pctNext     int
+	zeroRand    uint64
 	spinAdvance bool
 
 	// Values is a scratch area for scenario/oracle code.
@@ -186,16 +194,17 @@ func Run(cfg Config) (s *Sched) {
 		cfg.MaxStill = 200_000
 	}
 	s = &Sched{
-		byGoid: make(map[uint64]*G),
-		wake:   make(chan struct{}, 1), // replaced inside the bubble
-		St:     cfg.Stream,
-		Pol:    cfg.Policy,
-		cfg:    cfg,
-		MapShuffle: cfg.MapShuffle,
-		Probes: make(map[string]int64),
-		Faults: make(map[string]int64),
-		Values: make(map[string]any),
-		hash:   14695981039346656037,
+		byGoid:       make(map[uint64]*G),
+		wake:         make(chan struct{}, 1), // replaced inside the bubble
+		St:           cfg.Stream,
+		Pol:          cfg.Policy,
+		cfg:          cfg,
+		MapShuffle:   cfg.MapShuffle,
+		KnobsAllowed: cfg.Knobs,
+		Probes:       make(map[string]int64),
+		Faults:       make(map[string]int64),
+		Values:       make(map[string]any),
+		hash:         14695981039346656037,
 	}
 	defer func() {
 		cur.Store(nil)
@@ -467,6 +476,20 @@ func (s *Sched) loop() {
 			s.Stats.EventsRun++
 			e.fn()
 		}
+		for _, f := range s.stepHooks {
+			f()
+		}
+		if s.nwatch > 0 {
+			// predicates watched step by step: the state is at rest here
+			// (every goroutine is parked at a yield point or blocked)
+			for _, g := range s.gs {
+				if g.state == gWaitStep && g.pred != nil && g.pred() {
+					g.timedOut = false
+					s.nwatch--
+					s.makeRunnable(g)
+				}
+			}
+		}
 		run := s.runnable()
 		if len(run) > s.Stats.MaxG {
 			s.Stats.MaxG = len(run)
@@ -633,6 +656,46 @@ func Quiesce(pred func() bool, maxWait time.Duration) bool {
 	s.park(g, gWaitIdle, nil)
 	g.pred = nil
 	return !g.timedOut
+}
+
+// AwaitStep parks the caller until pred holds between two scheduling steps
+// (it is evaluated by the scheduler after every step, i.e. whenever any
+// goroutine has reached its next yield point), or until maxWait of
+// simulated time has passed (false).  It lets a scenario place an operation
+// inside a window that exists only between two yield points of the code
+// under test - "the piece is being hashed", "the event is queued but not
+// handled" - instead of waiting for chance to put it there.  pred must be
+// cheap and must not block.
+func AwaitStep(pred func() bool, maxWait time.Duration) bool {
+	s := cur.Load()
+	g := s.self()
+	g.pred = pred
+	g.waitGen++
+	gen := g.waitGen
+	g.timedOut = false
+	s.nwatch++
+	if maxWait > 0 {
+		s.After(maxWait, func() {
+			if g.state == gWaitStep && g.waitGen == gen {
+				g.timedOut = true
+				s.nwatch--
+				s.makeRunnable(g)
+			}
+		})
+	}
+	s.park(g, gWaitStep, nil)
+	g.pred = nil
+	return !g.timedOut
+}
+
+// OnStep registers a monitor that the scheduler calls between any two
+// steps of the run, when every goroutine is parked at a yield point or
+// blocked: an invariant checked "after every delivered event".  f must be
+// cheap, must not block and must not draw choices.
+func OnStep(f func()) {
+	if s := cur.Load(); s != nil {
+		s.stepHooks = append(s.stepHooks, f)
+	}
 }
 
 // Sleep advances simulated time for the caller.
